@@ -359,6 +359,10 @@ class Engine:
         if isinstance(t, tuple) and len(t) == 4 and t[0] == "lit" and t[1] in ("dict", "list", "set") and t[3] is not None:
             # a mutable default: one object, created when the function is defined, shared by all calls
             t = ("lit", t[1], t[2], tuple(t[3]) + ("@default",))
+        if isinstance(t, tuple) and len(t) == 2 and t[0] == "global" and t[1] in ("ext:sys.stdout", "ext:sys.stderr", "ext:sys.stdin"):
+            # def f(..., file=sys.stdout): the stream object of the moment the function was defined
+            # (import time), not the process's current one
+            t = ("call", "captured-at-definition", (t,), ())
         return t if t is not None else Fresh("default")
 
 
